@@ -4,7 +4,7 @@ from props.common import TRUSTED_BASE, ASSUMPTIONS as _A
 
 ID = 'C13'
 LEAN_MODULES = ['HidVerif.Props.C13']
-THEOREMS = ['HidVerif.Props.C13.' + n for n in ('escape_roundtrip', 'unit_table', 'escaped_is_printable', 'char_immediate_roundtrip', 'pack_bools_spec')]
+THEOREMS = ['HidVerif.Props.C13.' + n for n in ('escape_roundtrip', 'unit_table', 'escaped_is_printable', 'escaped_string_is_printable', 'escaped_length', 'char_immediate_roundtrip', 'pack_bools_spec')]
 TRUSTED = TRUSTED_BASE + ['py2lean in tools/extract.py transcribes _escape_bytes (if/elif chains over one byte); anything outside that '
                           'shape is reported as untranslatable; the transcription is also executed against the Python function on all '
                           '256 bytes x 2 quotes every run; it transcribes CodeGen.pack_bools (a loop over enumerate that appends to / updates the last element '
